@@ -16,6 +16,16 @@ type Extension interface {
 	GetTrack(stopTimeUpdate *gtfsrt.TripUpdate_StopTimeUpdate) *string
 }
 
+// PerMessageExtension is implemented by extensions that accumulate state while
+// processing the entities of a single feed message.
+//
+// The realtime parser calls ForMessage once per feed message and uses the returned
+// extension for that message only. This way no state leaks from one message to the
+// next, and a single extension value can be used for successive or concurrent parses.
+type PerMessageExtension interface {
+	ForMessage() Extension
+}
+
 type UpdateTripResult struct {
 	// Whether this trip should be skipped.
 	ShouldSkip bool
